@@ -33,20 +33,25 @@ import (
 //
 // Oracle: the call returns a stanza.Error whose type and condition are the ones sent.
 type nsConf struct {
-	tok string // "" for the default
-	ns  string
+	tok  string // "" for the default
+	ns   string
+	nocb bool // the application has set neither HandleInvite nor HandleUserPresence
 }
 
 var nsConfs = map[byte]nsConf{
-	'c': {"", "jabber:client"},
-	's': {"%s", "jabber:server"},
-	'a': {"%a", "jabber:component:accept"},
+	'c': {"", "jabber:client", false},
+	's': {"%s", "jabber:server", false},
+	'a': {"%a", "jabber:component:accept", false},
 }
 
 // splitConf takes the configuration token off a schedule.
 func splitConf(sched []string) (nsConf, []string) {
-	if len(sched) > 0 && len(sched[0]) == 2 && sched[0][0] == '%' {
-		if c, ok := nsConfs[sched[0][1]]; ok {
+	// %<ns> or %<ns>n (n: a muc.Client without callbacks)
+	if len(sched) > 0 && len(sched[0]) >= 2 && len(sched[0]) <= 3 && sched[0][0] == '%' {
+		if c, ok := nsConfs[sched[0][1]]; ok && (len(sched[0]) == 2 || sched[0][2] == 'n') {
+			if len(sched[0]) == 3 {
+				c.nocb, c.tok = true, sched[0]
+			}
 			return c, sched[1:]
 		}
 	}
@@ -106,7 +111,7 @@ func (rs *replyShape) class() string {
 			pre = "space"
 		}
 	}
-	return pre + "+" + string(rs.form)
+	return pre
 }
 
 // xml: the children of the error presence on a stream with stanza namespace ns
@@ -149,7 +154,7 @@ func (x *run) checkReturned(call string, c int, got stanza.Error, sent *replySha
 	typ, cond := sent.want(call == "Leave")
 	if got.Type != typ || got.Condition != cond {
 		clause := map[string]string{"Join": "join-error", "Leave": "leave-returns"}[call]
-		x.r.Fail(clause, "returned-error-differs-from-the-room's:"+sent.class(), x.lines(),
+		x.r.Fail(clause, "returned-error-differs-from-the-room's:"+x.ns+":"+sent.class(), x.lines(),
 			fmt.Sprintf("%s of channel %d returned the stanza error %s/%s, the room had sent %s/%s (reply children %q, stanza namespace %s)", call, c, got.Type, got.Condition, typ, cond, sent.raw, x.ns))
 	}
 }
@@ -188,11 +193,13 @@ func randReply(rnd *common.Rand) string {
 }
 
 func randConf(rnd *common.Rand) []string {
-	switch rnd.Intn(6) {
+	switch rnd.Intn(8) {
 	case 0:
 		return []string{"%s"}
 	case 1:
 		return []string{"%a"}
+	case 2:
+		return []string{"%" + string("csa"[rnd.Intn(3)]) + "n"}
 	}
 	return nil
 }
@@ -206,6 +213,9 @@ func runReplies(r *common.Run) int {
 	for _, k := range []byte("csa") {
 		cf := nsConfs[k]
 		for i, sh := range shapes {
+			if tooMany(r) {
+				return n
+			}
 			if k == 'c' && r.Tier != "thorough" && i%3 != 0 && len(sh) > 1 {
 				continue // quick: the default namespace gets a third of the echoed shapes
 			}
